@@ -45,7 +45,7 @@ def decode_edges(f, c_, b, kind):
 def scope(ctx):
     ents = entries(ctx)
     par = ctx.cg.reachable(list(ents), stop=stop_at, edge_filter=decode_edges)
-    fns = [ctx.db.fns[k] for k in par if not stop_at(k) or k in ents]
+    fns = [ctx.db.fns[k] for k in par if not stop_at(k) or k in ents or any(k.startswith(p) for p in T.SHALLOW_PREFIXES)]
     return ents, par, fns
 
 
